@@ -43,4 +43,6 @@ from .c15 import C15  # noqa: E402
 
 from .c18 import C18  # noqa: E402
 
-PROPS = {"C09": C09, "C15": C15, "C18": C18}
+from .c17 import C17  # noqa: E402
+
+PROPS = {"C09": C09, "C15": C15, "C17": C17, "C18": C18}
